@@ -104,7 +104,7 @@ def size_ok(o):
 
 OPS = ["new", "new", "svd", "add", "sub", "mul", "kron", "matmul", "transpose", "scalar", "clone", "to_ttm", "round", "sum", "getitem",
        "permute", "reshape", "cat", "pad", "diag", "mprod", "set_core", "reduce_dims", "dmrg", "hadamard", "amen_mm", "amen_mv", "solve", "divide",
-       "interp", "qtt", "dot", "norm", "factory", "saveload", "set_core_neg", "ctor_from_N", "ctor_from_N", "ctor_from_cores", "ctor_from_cores", "scribble", "scribble", "ctor_bad", "set_core_badrank", "iop"]
+       "interp", "qtt", "dot", "norm", "factory", "saveload", "set_core_neg", "ctor_from_N", "ctor_from_N", "ctor_from_cores", "ctor_from_cores", "scribble", "scribble", "ctor_bad", "set_core_badrank", "iop", "set_core_rowonly", "set_core_colonly"]
 
 def do_step(w, op):
     """performs one call; returns the log entry (name) or None when the op is not applicable"""
@@ -273,6 +273,15 @@ def do_step(w, op):
             if x.is_ttm: shp[2] = rng.choice([1, 2, 3])
         x.set_core(k, torch.tensor(ttgen.rand_core(rng, tuple(shp)), dtype=x.cores[0].dtype))
         w.calls.append("KSetCore %d %d (%s)" % (i, k, cshape_coq(tuple(shp)))); return "set_core(%d,%d)" % (i, k), i
+    if op in ("set_core_rowonly", "set_core_colonly"):
+        # operators: a replacement core that changes ONLY the row size (or only the column size) - every attribute derived from the cores must follow
+        i = w.pick(lambda o: o.is_ttm)
+        if i is None: return None
+        x = P[i]; k = rng.randrange(len(x.N))
+        shp = list(x.cores[k].shape); ax = 1 if op == "set_core_rowonly" else 2
+        shp[ax] = shp[ax] + rng.choice([1, 2])
+        x.set_core(k, torch.tensor(ttgen.rand_core(rng, tuple(shp)), dtype=x.cores[0].dtype))
+        w.calls.append("KSetCore %d %d (%s)" % (i, k, cshape_coq(tuple(shp)))); return "%s(%d,%d)" % (op, i, k), i
     if op == "set_core_neg":
         # a negative core index is not a valid argument (InvalidArguments); if it is accepted the object must still be well formed
         i = w.pick()
@@ -445,12 +454,21 @@ def do_step(w, op):
         w.add(o, "KClone %d" % i); return "save/load(%d)" % i, None
     return None
 
-def run_walk(seed, length, dtype):
+def coverage_script():
+    """a fixed schedule in which every operation of the walks occurs (twice), after enough constructions for tensors and operators to exist: run in every
+    check run, whatever the seed, so that no operation is left to the luck of the draw"""
+    ops = []
+    for o in OPS:
+        if o not in ops: ops.append(o)
+    return ["new"] * 8 + ops + ["new"] * 2 + list(reversed(ops))
+
+def run_walk(seed, length, dtype, script=None):
     """returns (Walk, error or None)"""
     rng = random.Random(seed)
     w = Walk(rng, dtype)
+    if script is not None: length = len(script)
     for step in range(length):
-        op = "new" if step < 2 else rng.choice(OPS)
+        op = script[step] if script is not None else ("new" if step < 2 else rng.choice(OPS))
         try:
             res = do_step(w, op)
         except Exception as ex:
